@@ -178,3 +178,45 @@ def handler_reraises(handler: ast.ExceptHandler) -> bool:
 
 def loc(module, node) -> str:
     return f'{module.rel}:{getattr(node, "lineno", 0)}'
+
+
+def unique_def(fn_node, name):
+    """the value expression of the only binding of `name` in the function (plain `name = expr`,
+    also as walrus), or None when it is a parameter, bound several times or bound otherwise"""
+    found = []
+    for n in walk_local(fn_node):
+        if isinstance(n, ast.Assign) and any(isinstance(t, ast.Name) and t.id == name for t in n.targets):
+            found.append(n.value)
+        elif isinstance(n, ast.AnnAssign) and isinstance(n.target, ast.Name) and n.target.id == name and n.value is not None:
+            found.append(n.value)
+        elif isinstance(n, ast.NamedExpr) and n.target.id == name:
+            found.append(n.value)
+        elif isinstance(n, ast.Name) and n.id == name and isinstance(n.ctx, (ast.Store, ast.Del)):
+            p = parent(n)
+            if not isinstance(p, (ast.Assign, ast.AnnAssign, ast.NamedExpr)):
+                found.append(None)  # loop target, with-as, tuple unpacking, augmented ...
+        elif isinstance(n, ast.AugAssign) and isinstance(n.target, ast.Name) and n.target.id == name:
+            found.append(None)
+    if isinstance(fn_node, FuncNode):
+        a = fn_node.args
+        if name in {x.arg for x in a.posonlyargs + a.args + a.kwonlyargs} or (a.vararg and a.vararg.arg == name) or (a.kwarg and a.kwarg.arg == name):
+            return None
+    if len(found) == 1 and found[0] is not None:
+        return found[0]
+    return None
+
+
+def deref(fn_node, expr, depth=4):
+    """follow single-assignment local names (and walrus expressions) to the expression they stand for"""
+    for _ in range(depth):
+        if isinstance(expr, ast.NamedExpr):
+            expr = expr.value
+            continue
+        if isinstance(expr, ast.Name):
+            v = unique_def(fn_node, expr.id)
+            if v is None:
+                return expr
+            expr = v
+            continue
+        break
+    return expr
